@@ -90,13 +90,13 @@ func (y *c19Yielder) point(name string) {
 	}
 	who := c19OpenCaller()
 	y.callers[who].Add(1)
-	// percentages: no delay / yield a few times / short sleep (< 0.5 ms) / long sleep (2–30 ms)
+	// cumulative 1/10000: no delay / yield a few times / short sleep (< 0.5 ms) / else long sleep (5–40 ms)
 	dist := [3][3]int{
-		c19CallerOther:  {50, 70, 90},
-		c19CallerCreate: {0, 0, 0},
-		c19CallerStart:  {100, 100, 100},
+		c19CallerOther:  {5000, 7000, 9000},
+		c19CallerCreate: {600, 1200, 2000},
+		c19CallerStart:  {9400, 9950, 9990},
 	}[who]
-	p := int(x % 100)
+	p := int(x % 10000)
 	v := x >> 16
 	switch {
 	case p < dist[0]:
@@ -108,7 +108,7 @@ func (y *c19Yielder) point(name string) {
 		time.Sleep(time.Duration(v%500) * time.Microsecond)
 	default:
 		y.long[who].Add(1)
-		time.Sleep(2*time.Millisecond + time.Duration(v%28000)*time.Microsecond)
+		time.Sleep(5*time.Millisecond + time.Duration(v%35000)*time.Microsecond)
 	}
 }
 
@@ -135,11 +135,13 @@ type c19BUSide struct {
 	delayUS    int // extra wait after the trigger
 	pace       int
 	tail       int // channels a goroutine still creates after it has seen the SCTP transport connected
+	pollers    int // goroutines of this peer that poll the SCTP transport (State, BufferedAmount) while the channels are created
 }
 
 type c19BUPlan struct {
 	answererRole DTLSRole
 	side         [2]c19BUSide
+	rtoMaxMS     int
 	chanSeed     uint64
 }
 
@@ -155,7 +157,7 @@ func (p c19BUPlan) String() string {
 			c19TrigNames[s.trigger], s.delayUS, c19PaceNames[s.pace], s.tail))
 	}
 
-	return fmt.Sprintf("bring-up answererDTLS=%s %s chans=%x", p.answererRole, strings.Join(parts, " "), p.chanSeed&0xffffff)
+	return fmt.Sprintf("bring-up answererDTLS=%s sctpRTOMax=%dms %s chans=%x", p.answererRole, p.rtoMaxMS, strings.Join(parts, " "), p.chanSeed&0xffffff)
 }
 
 func c19GenBUPlan(r *kit.Rand, k int) c19BUPlan {
@@ -163,29 +165,33 @@ func c19GenBUPlan(r *kit.Rand, k int) c19BUPlan {
 	if r.Chance(0.4) {
 		p.answererRole = DTLSRoleServer
 	}
+	// SCTP retransmission timer cap (SettingEngine.SetSCTPRTOMax): the accepting association queues at most 16 new streams and
+	// drops what arrives beyond that until the sender's timer fires, so a burst of OPENs needs timer rounds to get through
+	p.rtoMaxMS = kit.Pick(r, []int{20, 30, 30, 50, 100})
+	dense := k%4 != 3 || r.Chance(0.3)
 	for side := 0; side < 2; side++ {
 		s := &p.side[side]
 		s.pre = kit.Pick(r, []int{0, 0, 1, 1, 2, 5})
-		s.goroutines = kit.Pick(r, []int{1, 2, 3, 4, 6, 8, 10, 14})
-		s.total = kit.Pick(r, []int{20, 60, 150, 400, 800})
-		s.trigger = kit.Pick(r, []int{c19TrigSignalled, c19TrigICE, c19TrigDTLS, c19TrigDTLS, c19TrigDTLS, c19TrigPC, c19TrigPC, c19TrigRemoteSCTP})
 		s.delayUS = kit.Pick(r, []int{0, 0, 0, 30, 100, 250, 600})
+		s.tail = r.Intn(3)
+		if dense { // many goroutines, started close to the transport's start, creating channels as fast as they can
+			s.goroutines = kit.Pick(r, []int{8, 10, 12, 14})
+			s.trigger = kit.Pick(r, []int{c19TrigDTLS, c19TrigDTLS, c19TrigPC})
+			s.total = kit.Pick(r, []int{300, 500, 800})
+			s.pace = kit.Pick(r, []int{0, 0, 1, 2})
+
+			continue
+		}
+		s.goroutines = kit.Pick(r, []int{1, 2, 3, 4, 6, 8, 10, 14})
+		s.total = kit.Pick(r, []int{20, 60, 150, 400})
+		s.trigger = r.Intn(5)
 		s.pace = r.Intn(4)
-		s.tail = r.Intn(4)
 		if s.trigger == c19TrigSignalled || s.trigger == c19TrigICE { // a long way to go: spread the channels out
 			s.pace = kit.Pick(r, []int{1, 2, 3, 3})
 		}
 	}
-	switch k % 4 { // every seed has pairs with one idle peer and pairs with two busy peers
-	case 0:
+	if k%4 == 0 { // every seed has pairs with one idle peer and pairs with two busy peers
 		p.side[r.Intn(2)].goroutines = 0
-	case 1:
-		for side := 0; side < 2; side++ { // dense: many goroutines right at the transport's start
-			p.side[side].goroutines = kit.Pick(r, []int{6, 8, 10, 14})
-			p.side[side].trigger = kit.Pick(r, []int{c19TrigDTLS, c19TrigPC})
-			p.side[side].total = kit.Pick(r, []int{150, 400, 800})
-			p.side[side].pace = r.Intn(3)
-		}
 	}
 
 	return p
@@ -281,16 +287,16 @@ func c19GenBUChan(r *kit.Rand, side, g, n int, evenIDs bool) *c19BUChan {
 
 func c19BUMsgs(c *c19BUChan, dir int) []c19Msg {
 	r := kit.NewRand(c.msgSeed, uint64(0xB0+dir)) //nolint:gosec
-	n := r.Range(3, 12)
+	n := r.Range(3, 8)
 	var out []c19Msg
 	for q := 0; q < n; q++ {
 		var size int
 		switch x := r.Intn(100); {
 		case x < 15:
 			size = r.Intn(3)
-		case x < 75:
+		case x < 80:
 			size = r.Range(8, 300)
-		case x < 92:
+		case x < 97:
 			size = r.Range(1100, 1300)
 		default:
 			size = r.Range(16383, 16385)
@@ -370,6 +376,8 @@ func c19BringUpCase(run *kit.Run, k int) { //nolint:gocognit,cyclop,maintidx,goc
 					s.delayUS = val
 				case "pre":
 					s.pre = val
+				case "poll":
+					s.pollers = val
 				}
 			}
 		}
@@ -379,8 +387,11 @@ func c19BringUpCase(run *kit.Run, k int) { //nolint:gocognit,cyclop,maintidx,goc
 	cfg := Configuration{AlwaysNegotiateDataChannels: true}
 	var pcs [2]*PeerConnection
 	var err error
-	if pcs[0], err = rigNewPC(rigOpts{Cfg: cfg}); err == nil {
-		pcs[1], err = rigNewPC(rigOpts{Cfg: cfg, SE: func(se *SettingEngine) { _ = se.SetAnsweringDTLSRole(plan.answererRole) }})
+	if pcs[0], err = rigNewPC(rigOpts{Cfg: cfg, SE: func(se *SettingEngine) { se.SetSCTPRTOMax(time.Duration(plan.rtoMaxMS) * time.Millisecond) }}); err == nil {
+		pcs[1], err = rigNewPC(rigOpts{Cfg: cfg, SE: func(se *SettingEngine) {
+			_ = se.SetAnsweringDTLSRole(plan.answererRole)
+			se.SetSCTPRTOMax(time.Duration(plan.rtoMaxMS) * time.Millisecond)
+		}})
 	}
 	if err != nil {
 		run.Inconclusive("bringup-newpc: " + firstN(err.Error(), 60))
@@ -388,6 +399,10 @@ func c19BringUpCase(run *kit.Run, k int) { //nolint:gocognit,cyclop,maintidx,goc
 
 		return
 	}
+	tT := time.Now()
+	var tmarks []string
+	mark := func(w string) { tmarks = append(tmarks, fmt.Sprintf("%s=%dms", w, time.Since(tT).Milliseconds())) }
+	defer func() { mark("closed"); fmt.Println("TIMING", k, tmarks) }()
 	leak := false // set when the pair is in a state the library was never meant to be in: closing it could take the process down
 	defer func() {
 		if !leak {
@@ -484,7 +499,8 @@ func c19BringUpCase(run *kit.Run, k int) { //nolint:gocognit,cyclop,maintidx,goc
 			return true
 		}
 	}
-	var creators sync.WaitGroup
+	var creators, pollers sync.WaitGroup
+	var pollStop atomic.Bool
 	var goCh [2]chan struct{}
 	for side := 0; side < 2; side++ {
 		ps := plan.side[side]
@@ -506,12 +522,34 @@ func c19BringUpCase(run *kit.Run, k int) { //nolint:gocognit,cyclop,maintidx,goc
 					time.Sleep(200 * time.Microsecond)
 				}
 			}
+			tTrig := time.Now()
+			go func() {
+				for pcs[side].SCTP().State() != SCTPTransportStateConnected && !giveUp.Load() {
+					runtime.Gosched()
+				}
+				fmt.Println("DTIME", k, side, c19TrigNames[ps.trigger], time.Since(tTrig).Microseconds())
+			}()
 			if ps.delayUS > 0 {
 				for t0 := time.Now(); time.Since(t0) < time.Duration(ps.delayUS)*time.Microsecond; {
 					runtime.Gosched()
 				}
 			}
 		}(side)
+		for q := 0; q < ps.pollers; q++ {
+			pollers.Add(1)
+			go func(side, q int) {
+				defer pollers.Done()
+				<-goCh[side]
+				tr := pcs[side].SCTP()
+				for n := 0; !pollStop.Load(); n++ {
+					if (n+q)%4 == 0 {
+						_ = tr.State()
+					} else {
+						_ = tr.BufferedAmount()
+					}
+				}
+			}(side, q)
+		}
 		for g := 0; g < ps.goroutines; g++ {
 			creators.Add(1)
 			go func(side, g int) {
@@ -540,7 +578,7 @@ func c19BringUpCase(run *kit.Run, k int) { //nolint:gocognit,cyclop,maintidx,goc
 			}(side, g)
 		}
 	}
-	stopCreators := func() { giveUp.Store(true); creators.Wait() }
+	stopCreators := func() { giveUp.Store(true); pollStop.Store(true); creators.Wait(); pollers.Wait() }
 
 	if _, _, err = rigExchange(pcs[0], pcs[1], nil, nil); err != nil {
 		stopCreators()
@@ -558,8 +596,9 @@ func c19BringUpCase(run *kit.Run, k int) { //nolint:gocognit,cyclop,maintidx,goc
 
 		return
 	}
+	mark("connected")
 	creatorsDone := make(chan struct{})
-	go func() { creators.Wait(); close(creatorsDone) }()
+	go func() { creators.Wait(); pollStop.Store(true); pollers.Wait(); close(creatorsDone) }()
 	select {
 	case <-creatorsDone:
 	case <-time.After(60 * time.Second):
@@ -568,6 +607,7 @@ func c19BringUpCase(run *kit.Run, k int) { //nolint:gocognit,cyclop,maintidx,goc
 
 		return
 	}
+	mark("creators")
 	// one more channel per peer, created when everything above has been created: when it is open on both peers, every
 	// DATA_CHANNEL_OPEN sent before it has been on the wire for a while
 	for side := 0; side < 2; side++ {
@@ -625,6 +665,7 @@ func c19BringUpCase(run *kit.Run, k int) { //nolint:gocognit,cyclop,maintidx,goc
 		run.Seen("bringup_open_watchdog_stuck_at", stuck)
 		run.Inconclusive("bringup-channel-open-watchdog")
 	}
+	mark("allopen")
 	time.Sleep(20 * time.Millisecond) // settle: surplus announcements show up
 
 	// ---- announcement + parameter oracle
@@ -741,8 +782,8 @@ func c19BringUpCase(run *kit.Run, k int) { //nolint:gocognit,cyclop,maintidx,goc
 		return d
 	}
 	sort.SliceStable(single, func(a, b int) bool { return dist(single[a]) < dist(single[b]) })
-	if len(single) > 40 {
-		single = single[:40]
+	if len(single) > 16 {
+		single = single[:16]
 	}
 	type c19BUFlow struct {
 		c        *c19BUChan
@@ -848,6 +889,7 @@ func c19BringUpCase(run *kit.Run, k int) { //nolint:gocognit,cyclop,maintidx,goc
 		}
 	}
 
+	mark("traffic")
 	// ---- coverage
 	spanned := 0
 	for side := 0; side < 2; side++ {
